@@ -97,6 +97,13 @@ CLAIMED = {
         note=TB + "Per-key behaviour of the modes is a parameter (partial); with --keep-mode a pending operator also persists: known finding keep-mode-pending-seq.",
         technique="Coq proof (fold over key events on top of the C15 reader theorem) + CLI differential over splittings",
         design="§9 C11"),
+    "C20": dict(
+        text="Theorems (every line-buffer semantics): after a repeatable change X and any non-repeatable commands in between, '.' leaves text, cursor and registers exactly as executing X again does; what '.' repeats is untouched by motions/yanks/failed commands; chains X . . . equal X typed k+1 times; a count on '.' executes the stored command with that count. "
+             "Correspondence/oracle in-process through the real ViCut: (text, cursor, change X from the repeatable set incl. registers, counts, text objects and insert sessions with <BS>/cursor keys/empty text, earlier changes, 0..4 commands in between, chains up to 5, counts 2/3) with '.' vs X retyped; the editor's repeat register compared across the in-between commands. "
+             "Insert sessions entered by a A I o O, c s S C, R, counted sessions and cursor keys inside sessions are known findings (classes by command kind).",
+        note=TB + "That retyping X parses to the stored ViCmd, and with_count n X to X typed with count n, is validated by the check, not proved (the normal-mode parser is not modelled).",
+        technique="Coq proof (invariant: stored change = last repeatable command) + differential check dot vs retyped",
+        design="§9 C20"),
 }
 
 NOT_YET = {}
